@@ -76,6 +76,8 @@ def run(ck):
     ck.rule("C02.R3", "per-thread default is written only by set_default/guard drop, never from get_global()", floor=3)
     ck.rule("C02.R4", "global default: single CAS-guarded write, published before INITIALIZED, guarded read", floor=5)
     ck.rule("C02.R5", "EXISTS set by both install paths", floor=2)
+    ck.rule("C02.R10", "a future wrapped with its own collector is polled with that collector as the thread's default, for exactly the duration of each poll "
+            "(set before the inner poll, restored on return and on unwind), in tracing and in tracing-futures alike; the wrappers capture the collector they are given / the current one", floor=4)
     ck.rule("C02.R9", "callsites hit before the global default existed are re-judged by it once it is installed: where registration consults the global default (no_std), set_global_default re-evaluates after publishing (as C01.R14)", floor=1)
     ck.rule("C02.R8", "what a callback may do does not depend on other threads' scopes: the fast and the slow path of get_default treat nested use alike", floor=2)
     ck.rule("C02.R7", "the count of live scopes cannot wrap: SCOPED_COUNT is at least pointer-sized", floor=2)
@@ -99,6 +101,7 @@ def run(ck):
     ck.tag = ""
     from rules import C01
     C01.install_reevaluates(ck, rid="C02.R9")
+    with_dispatch_rule(ck, F)
 
 
 # ---------------------------------------------------------------------- R1
@@ -396,6 +399,67 @@ def r3(ck, F, rid="C02.R3"):
 
 
 # ---------------------------------------------------------------------- R4
+def with_dispatch_rule(ck, F, rid="C02.R10"):
+    from rulekit.query import closure_arg
+    for crate, P in (("tracing", "tracing::instrument::"), ("tracing-futures", "tracing_futures::")):
+        b = F.body("<%sWithDispatch<T> as core::future::future::Future>::poll" % P)
+        key = "%s WithDispatch::poll: inner poll under the future's own dispatcher as default" % crate
+        if not ck.anchor(rid, "%s WithDispatch::poll" % crate, b):
+            continue
+        sd = [(bb, t) for bb, t in b.calls() if t["callee"].get("path") == D + "set_default"]
+        wd = [(bb, t) for bb, t in b.calls() if t["callee"].get("path") == D + "with_default"]
+        polls = [(bb, t) for bb, t in b.calls() if t["callee"].get("path") == "core::future::future::Future::poll"]
+        problems = []
+
+        def from_self(op):
+            o = b.origin(op)
+            return (o[0] == "call" and "project" in str(o[2]["callee"].get("path"))) or o[0] == "arg"
+        if len(sd) == 1 and len(polls) == 1 and not wd:
+            if not from_self(sd[0][1]["argv"][0]):
+                problems.append("set_default is not given the wrapper's own dispatcher")
+            if not b.dominates(sd[0][0], polls[0][0]):
+                problems.append("the inner future is polled before the default is set")
+            else:
+                drops = drop_blocks(b, sd[0][1]["dest"]["l"])
+                if dropped_on_all_exits(b, polls[0][0], drops):
+                    problems.append("the DefaultGuard is not held across the inner poll and dropped after it on both the return and the unwind path")
+        elif len(wd) == 1 and not sd:
+            if not from_self(wd[0][1]["argv"][0]):
+                problems.append("with_default is not given the wrapper's own dispatcher")
+            cd = closure_arg(b, wd[0][1]["argv"][1])
+            cb = F.body(cd) if cd else None
+            n = len([1 for _, t in cb.calls() if t["callee"].get("path") == "core::future::future::Future::poll"]) if cb else 0
+            if n != 1 or polls:
+                problems.append("the inner future is not polled exactly once inside with_default's closure (%d inside, %d outside)" % (n, len(polls)))
+        else:
+            problems.append("expected one set_default guard around (or one with_default closure containing) the single inner poll; found %d set_default, %d with_default, %d polls outside closures"
+                            % (len(sd), len(wd), len(polls)))
+        if problems:
+            ck.bad(rid, key, where(b.raw["sp"]), "; ".join(problems), fn=b.path)
+        else:
+            ck.ok(rid, key, fn=b.path)
+        for m, how in (("with_collector", "into"), ("with_current_collector", "get_default")):
+            w = F.body(P + "WithCollector::" + m)
+            key = "%s WithCollector::%s captures %s" % (crate, m, "the collector it is given" if how == "into" else "the thread's current default")
+            if not ck.anchor(rid, "%s WithCollector::%s" % (crate, m), w):
+                continue
+            rets = [p.ret for p in PathEval(w).run() if p.end == "return"]
+            ok = len(rets) == 1 and rets[0][0] == "agg" and "WithDispatch" in str(rets[0][1])
+            if ok:
+                ops = [show(x) for x in rets[0][3]]
+                if how == "into":
+                    ok = any(x in ("into(arg2)", "arg2", "new(arg2)", "from(arg2)") for x in ops) and "arg1" in ops
+                else:
+                    ok = any(x.startswith("get_default(") for x in ops) and "arg1" in ops
+                    cd = [closure_arg(w, t["argv"][0]) for _, t in w.calls() if t["callee"].get("path") == D + "get_default"]
+                    cb = F.body(cd[0]) if cd and cd[0] else None
+                    ok = ok and (cb is None or any(t["callee"].get("method") == "clone" for _, t in cb.calls()))
+            if ok:
+                ck.ok(rid, key, fn=w.path)
+            else:
+                ck.bad(rid, key, where(w.raw["sp"]), "builds %s" % [show(r)[:100] for r in rets], fn=w.path)
+
+
 def r4(ck, F, rid="C02.R4"):
     GD = D + "GLOBAL_DISPATCH"
     GI = D + "GLOBAL_INIT"
